@@ -78,6 +78,7 @@ var (
 	fList       = flag.Bool("list", false, "list workloads")
 	fDescribe   = flag.String("describe", "", "print the evidence description of a workload as JSON")
 	fVerbose    = flag.Bool("v", false, "with -replay: print the trace")
+	fJournal    = flag.String("journal", "", "with -replay of a from-seed file: write every generated draw to this file as it is made")
 )
 
 func main() {
@@ -424,7 +425,22 @@ func doReplay(env *work.Env) int {
 		}
 		rec = rp.OrigRec()
 	}
-	r, infra := execute(env, w, rp.RunSeed, rp.RunIndex, core.ReplayTape(rec), true)
+	tape := core.ReplayTape(rec)
+	if rp.FromSeed {
+		// the recorded run killed its process (fatal error of the Go runtime): regenerate it from the seed
+		rp.RunSeed = core.Mix(rp.BaseSeed, core.MixS(w.Name), rp.RunIndex)
+		tape = core.NewTape(rp.RunSeed)
+		if *fJournal != "" {
+			jf, err := os.OpenFile(*fJournal, os.O_CREATE|os.O_WRONLY|os.O_TRUNC, 0o644)
+			if err != nil {
+				fmt.Fprintln(os.Stderr, "vsim:", err)
+				return 2
+			}
+			tape.JournalTo(int(jf.Fd()))
+			defer jf.Close()
+		}
+	}
+	r, infra := execute(env, w, rp.RunSeed, rp.RunIndex, tape, true)
 	if infra != "" {
 		fmt.Fprintln(os.Stderr, "vsim:", infra)
 		return 2
